@@ -2,6 +2,7 @@ package main
 
 import (
 	"fmt"
+	"go/types"
 	"regexp"
 	"strings"
 
@@ -226,6 +227,94 @@ func (c *Ctx) obMustUnder(what string, f *ssa.Function, labels []string, H ...st
 // factMatch: does a fact matching the regular expression hold before site
 // (lifted through closures/callees like Guarded)?
 func (c *Ctx) factMatch(site ssa.Instruction, re string) (bool, string) {
+	return c.factMatchD(site, re, 0)
+}
+
+// writtenBefore: may one of the fields be written between the entry of site's function and site?
+func (c *Ctx) writtenBefore(site ssa.Instruction, fields []*types.Var) bool {
+	if len(fields) == 0 {
+		return false
+	}
+	want := map[*types.Var]bool{}
+	for _, f := range fields {
+		want[f] = true
+	}
+	// blocks from which the site's block is reachable
+	rb := map[*ssa.BasicBlock]bool{site.Block(): true}
+	work := []*ssa.BasicBlock{site.Block()}
+	inLoop := false
+	for len(work) > 0 {
+		b := work[len(work)-1]
+		work = work[:len(work)-1]
+		for _, p := range b.Preds {
+			if p == site.Block() {
+				inLoop = true
+			}
+			if !rb[p] {
+				rb[p] = true
+				work = append(work, p)
+			}
+		}
+	}
+	hit := false
+	for b := range rb {
+		for _, x := range b.Instrs {
+			if b == site.Block() && x == site && !inLoop {
+				break
+			}
+			if fld, _, _ := storedField(x); fld != nil && want[fld] {
+				hit = true
+			}
+			if cc := callCommon(x); cc != nil {
+				if _, isDefer := x.(*ssa.Defer); isDefer {
+					continue
+				}
+				if g := staticCallee(cc); g != nil && inSmtp(g) {
+					for fld := range c.F.MayWrite(g) {
+						if want[fld] {
+							hit = true
+						}
+					}
+				}
+			}
+		}
+	}
+	return hit
+}
+
+func (c *Ctx) factMatchD(site ssa.Instruction, re string, depth int) (bool, string) {
+	if ok, a := c.factMatchLocal(site, re); ok {
+		return true, a
+	}
+	// an unexported helper inherits what holds at every one of its call sites, unless the helper itself may have
+	// written a field the fact speaks about before reaching the site
+	f := site.Parent()
+	if depth >= 3 || f.Parent() != nil || isExported(f) {
+		return false, ""
+	}
+	callers := c.callersOf(f)
+	if len(callers) == 0 {
+		return false, ""
+	}
+	found := ""
+	for _, cs := range callers {
+		ok, a := c.factMatchD(cs, re, depth+1)
+		if !ok {
+			return false, ""
+		}
+		if strings.Contains(a, "param") || strings.Contains(a, "local:") || strings.Contains(a, "alloc:") {
+			// the caller's parameters and locals are not the helper's: accepted only because the atom is evaluated in
+			// the caller's frame at the call; nothing in the helper can change them
+		}
+		if c.writtenBefore(site, c.F.mentionsOf(a)) {
+			return false, ""
+		}
+		found = a
+	}
+	return true, found + " (at every call site of " + funcName(f) + ")"
+}
+
+func (c *Ctx) factMatchLocal(site ssa.Instruction, re string) (bool, string) {
 	rx := regexp.MustCompile(re)
 	ff := c.F.Analyze(site.Parent())
 	for a := range ff.At(site) {
@@ -539,4 +628,41 @@ func (c *Ctx) onlyCalledFrom(f *ssa.Function, allowed []string, depth int) bool 
 		}
 	}
 	return true
+}
+
+// withHelpers: f and the unexported package functions it calls statically (two levels), so that code moved from a
+// handler into a helper of its own stays in the scope of the handler's rules. The connection-wide primitives are
+// not helpers of a particular handler.
+func (c *Ctx) withHelpers(f *ssa.Function) []*ssa.Function {
+	shared := map[string]bool{"(*Conn).writeResponse": true, "(*Conn).writeError": true, "(*Conn).reset": true, "(*Conn).Close": true,
+		"(*Conn).protocolError": true, "(*Conn).readLine": true, "(*Conn).Session": true, "(*Conn).setSession": true, "(*Conn).init": true,
+		"(*Conn).handlePanic": true, "(*Conn).createStatusCollector": true, "dataErrorToStatus": true, "newDataReader": true}
+	out := []*ssa.Function{f}
+	seen := map[*ssa.Function]bool{f: true}
+	var add func(g *ssa.Function, depth int)
+	add = func(g *ssa.Function, depth int) {
+		allInstrs(g, func(in ssa.Instruction) {
+			cc := callCommon(in)
+			if cc == nil {
+				return
+			}
+			h := staticCallee(cc)
+			if h == nil || !inSmtp(h) || h.Blocks == nil || seen[h] || isExported(h) || shared[funcName(h)] || h.Parent() != nil {
+				return
+			}
+			if !strings.HasPrefix(funcName(h), "(*Conn).") {
+				return
+			}
+			if strings.HasPrefix(funcName(h), "(*Conn).handle") {
+				return // another command handler, not a helper
+			}
+			seen[h] = true
+			out = append(out, h)
+			if depth < 2 {
+				add(h, depth+1)
+			}
+		})
+	}
+	add(f, 1)
+	return out
 }
